@@ -76,7 +76,9 @@ class Ctx:
 
     # -- finishing --------------------------------------------------------
     def finish(self, repo, write=True):
-        known = [k for k in load_known() if k.get('property') == self.pid]
+        known = [k for k in load_known()
+                 if self.pid == k.get('property')
+                 or self.pid in (k.get('properties') or [])]
         lines = []
         new = []
         known_hit = []
